@@ -184,6 +184,10 @@ class VLoop(base_events.BaseEventLoop):
         self._ntimers += 1
         cur = asyncio.current_task(self)
         tkey = cur.v_tkey if isinstance(cur, VTask) else self.default_tkey
+        # dates are kept on a microsecond grid (see scenario._FakeTime)
+        when = round(when, 6)
+        if when < self._vt:
+            when = self._vt
         timer = VTimer(when, callback, args, self, context)
         timer._tk = (tkey, n)
         heapq.heappush(self._scheduled, timer)
